@@ -30,7 +30,7 @@ func verifC56ID(name string) restic.ID {
 	id[0] = verifrt.Byte(name + ".b0")
 	id[1] = verifrt.Byte(name + ".b1")
 	verifrt.Assume(id[1] <= 1)
-	id[31] = 7
+	// (no other byte is set: the all-zero ID - the key of the reserved null entry at position 0 - is included)
 	return id
 }
 
